@@ -249,7 +249,7 @@ func runC07(c *Ctx) {
 				if bad == "" {
 					got := cpu.States
 					want := final0
-					got.IR.Lo, want.IR.Lo = 0, 0
+					got.IR.Lo, want.IR.Lo = got.IR.Lo&0x80, want.IR.Lo&0x80 // the refresh count differs by the handler's fetches; bit 7 is the program's
 					if got != want {
 						bad = "final registers/flags/IFF differ from the uninterrupted run"
 					} else if !mon.EqualSeq(io.Log, io0.Log) {
@@ -318,7 +318,7 @@ func runC07(c *Ctx) {
 	c.R.Set("im0_known_finding_occurrences", im0Known)
 	c.R.Set("exhaustive", false)
 	c.R.Set("exhaustive_over", "every Step boundary k = 0..N+2 of every generated program, for each of 6 interrupt kinds (fault enumeration per program)")
-	c.R.Set("rule", "generated register-transparent programs (prologue LD SP/IM/LD I/EI; ALU/load code, DJNZ loops, CALL/RET, PUSH/POP, LDIR/LDDR/CPIR/CPDR/OTIR/INIR with small counts, DI..EI sections, EX/EXX, IX/IY code, port I/O; final HALT) x kinds {NMI, IM1, IM2 (random even vector), IM0 RST p, IM0 CALL nn, NMI under IM2, NMI followed by a mode-1 request 1..3 Steps into the NMI handler} x EVERY injection point k=0..N+2 (incl. between block repetitions, inside DI sections => deferred service, and while parked on HALT); twin execution: the interrupted run must return to the final HALT with the same registers/flags/IFF (R excluded), memory (outside the 64 bytes below SP and the handler's private counter), device traffic, the handler having run exactly once and RETN/RETI notified once; the return address found at SP in the accepting Step must be the PC of the first unexecuted instruction. Distinct = distinct (program, kind, k) with the request actually accepted")
+	c.R.Set("rule", "generated register-transparent programs (prologue LD SP/IM/LD I/EI; ALU/load code, DJNZ loops, CALL/RET, PUSH/POP, LDIR/LDDR/CPIR/CPDR/OTIR/INIR with small counts, DI..EI sections, EX/EXX, IX/IY code, port I/O; final HALT) x kinds {NMI, IM1, IM2 (random even vector), IM0 RST p, IM0 CALL nn, NMI under IM2, NMI followed by a mode-1 request 1..3 Steps into the NMI handler} x EVERY injection point k=0..N+2 (incl. between block repetitions, inside DI sections => deferred service, and while parked on HALT); twin execution: the interrupted run must return to the final HALT with the same registers/flags/IFF (the low seven bits of R excluded: the handler's fetches count; bit 7 compared), memory (outside the 64 bytes below SP and the handler's private counter), device traffic, the handler having run exactly once and RETN/RETI notified once; the return address found at SP in the accepting Step must be the PC of the first unexecuted instruction. Distinct = distinct (program, kind, k) with the request actually accepted")
 	c.R.Assume("mode 0: a pushed address of exactly PC+len(data) is the recorded known finding; the monitor then rewrites the two stack bytes and still compares the rest of the run (compensated continuation)")
 	c.R.Assume("handler is transparent by construction (saves what it uses, writes only below SP and to its private cell)")
 }
